@@ -526,6 +526,50 @@ def _desugar_adaptor_next(w, j, bi, stack):
     return [bi] + list(range(n0, len(j['blocks'])))      # (the header is looked at again: the inner iterator may be an adaptor as well)
 
 
+def _desugar_fold(w, j, bi, stack):
+    """it.fold(init, |acc, x| body)  =>  acc = init; loop { match it.next() { None => break, Some(x) => acc = body(acc, x) } }; result = acc"""
+    blk = j['blocks'][bi]
+    t = blk['term']
+    cp = callee_path(t) or ''
+    if cp != 'std::iter::Iterator::fold' or t['target'] is None or len(t['args']) != 3 or t['dest']['proj']:
+        return None
+    recv = t['args'][0]
+    if recv.get('o') not in ('move', 'copy') or recv['p']['proj']:
+        return None
+    cb, cl = _closure_of_operand(w, j, t['args'][2])
+    if cb is None or cb.id in stack or len(stack) >= 4 or cb.arg_count != 3:
+        return None
+    B = _Builder(j, t['span'], stack)
+    n0 = len(j['blocks'])
+    dest, target = t['dest'], t['target']
+    rl = recv['p']['l']
+    rty = j['locals'][rl]['ty']
+    item_ty = cb.j['locals'][3]['ty']
+    acc_ty = cb.j['locals'][2]['ty']
+    acc = B.local(acc_ty)
+    nxt = B.local(_opt_ty(item_ty))
+    d = B.local({'k': 'int', 'n': 'isize', 's': 'isize'})
+    x = B.local(item_ty)
+    itref = rl
+    pre = [B.assign(_pl(acc), _use(copy.deepcopy(t['args'][1])))]
+    if rty.get('k') != 'ref':
+        itref = B.local({'k': 'ref', 'mut': True, 't': rty, 's': '&mut %s' % rty.get('s', '?')})
+        pre.append(B.assign(_pl(itref), {'r': 'ref', 'mut': True, 'p': _pl(rl)}))
+    head = B.block()
+    test = B.block([B.assign(_pl(d), {'r': 'discr', 'p': _pl(nxt)})])
+    unreach = B.block()
+    j['blocks'][head]['term'] = {'t': 'call', 'callee': copy.deepcopy(NEXT_CALLEE), 'args': [{'o': 'copy', 'p': _pl(itref)}], 'dest': _pl(nxt), 'target': test, 'span': t['span'],
+                                 'fn_span': t.get('fn_span', t['span']), 'synthetic': True}
+    exit_b = B.block([B.assign(copy.deepcopy(dest), _use(_mv(acc)))], B.goto(target))
+    bind = B.assign(_pl(x), _use(_payload(nxt, OPT, 'pos', item_ty)))
+    entry, new = _expand_closure(w, B, cb, cl, [_use(_mv(acc)), _use(_mv(x))], _pl(acc), head, stack)
+    j['blocks'][entry]['stmts'].insert(0, bind)
+    j['blocks'][test]['term'] = {'t': 'switch', 'discr': _mv(d), 'discr_ty': 'isize', 'targets': [[0, exit_b], [1, entry]], 'otherwise': unreach, 'span': t['span']}
+    blk['stmts'].extend(pre)
+    blk['term'] = {'t': 'goto', 'target': head, 'span': t['span'], 'desugared': cp}
+    return list(range(n0, len(j['blocks'])))
+
+
 _DESUGARED = {}
 
 
@@ -561,7 +605,7 @@ def inline_body(w, body, pred, max_depth=3, max_blocks=1500, desugar=True, adapt
                 work.extend(new)
                 continue
         if adaptors and len(j['blocks']) < max_blocks:
-            new = _desugar_adaptor_next(w, j, bi, blk['inl'])
+            new = _desugar_adaptor_next(w, j, bi, blk['inl']) or _desugar_fold(w, j, bi, blk['inl'])
             if new:
                 inlined.append('desugared:%s' % (callee_path(t) or ''))
                 work.extend(new)
